@@ -119,6 +119,15 @@ def check_case(case, acc):
     except Exception as e:
         report(acc, f"digest-raises:{type(e).__name__}", f"digest raised {type(e).__name__}: {e}", case)
         return None
+    if case.get("history") == "modify-result-then-repeat" and isinstance(got, set):
+        snap = set(got)
+        got.add("#changed-by-caller#")
+        again = _digest(case)
+        if again != snap:
+            report(acc, "digest-repeat-differs-after-result-was-modified",
+                   "the caller modified the returned set; the same call then returned another digest", case,
+                   expected=sorted(snap), observed=sorted(map(str, again)))
+        got = snap
     must, allowed = ref_digest(case["seq"], enzyme_of(case["pattern"], True), case["mc"], case["min"], case["max"],
                                case["clip"], case["semi"])
     judge(case, got, must, allowed, acc)
@@ -155,6 +164,19 @@ def check_sequence(digest, seq, pattern, compiled, acc):
                                    f"digest raised {type(e).__name__}: {e}", case_of(mc, clip, semi, lo, hi))
                             acc.case(nontrivial=False, cls="crash")
                             continue
+                        if lo == 1 and isinstance(got, set):
+                            # history: the caller changes the set it was given (pool |= ..., discard) and asks again
+                            snap = set(got)
+                            got.add("#changed-by-caller#")
+                            again = digest(seq, enzyme_regex=enz, missed_cleavages=mc, clip_nterm_methionine=clip,
+                                           min_length=lo, max_length=hi, semi=semi)
+                            acc.count("repeat_after_caller_changed_result")
+                            if again != snap:
+                                report(acc, "digest-repeat-differs-after-result-was-modified",
+                                       "the caller modified the returned set; the same call then returned another digest",
+                                       dict(case_of(mc, clip, semi, lo, hi), history="modify-result-then-repeat"),
+                                       expected=sorted(snap), observed=sorted(map(str, again)))
+                            got = snap
                         must = select(must_items, lo, hi)
                         if got != must:
                             allowed = must | select(may_items, lo, hi)
